@@ -188,6 +188,22 @@ func c12Leader(c *Ctx) {
 							bad = append(bad, fmt.Sprintf("markDone/delete before the upstream call (events: %s)", word))
 						}
 					}
+					// order: the record leaves the queue before the waiters are released.  With
+					// markDone first a caller that starts after the upstream request has returned
+					// (for instance a waiter that was just woken and asks again) still finds the
+					// record and is handed a result produced before its call began.
+					mi, di := -1, -1
+					for i, e := range st.Events {
+						if e.Kind == "markDone" && mi < 0 {
+							mi = i
+						}
+						if e.Kind == "delete" && di < 0 {
+							di = i
+						}
+					}
+					if mi >= 0 && di >= 0 && mi < di {
+						bad = append(bad, fmt.Sprintf("leader path publishes the result before the request is removed from the queue (events: %s), return at %s: a call that begins after the upstream request has returned can still join it and is handed its result", word, c.pos(ret.Pos())))
+					}
 				}
 			},
 		}
